@@ -596,6 +596,7 @@ func genCase(seed uint64, profile string) *Case {
 		}
 	}
 	c.ExpandCheck = r.chance(1, 3)
+	c.Pretouch = r.chance(1, 2)
 	c.MapSalt = r.u64() | 1
 	c.Faults.Seed = r.u64()
 	if profile == "fault" {
